@@ -22,6 +22,7 @@ pub fn prop() -> Prop {
             Sub::tape("native_target", 460, 80_000, 4_000_000, |d, cx| run(d, cx, true)),
             Sub::tape("draw_iter_only_target", 460, 80_000, 4_000_000, |d, cx| run(d, cx, false)),
             Sub::tape("adapter_operations", 200, 60_000, 3_000_000, adapter_operations),
+            Sub::tape("large_drawables", 64, 800, 40_000, large_drawables),
         ],
     }
 }
@@ -87,7 +88,22 @@ fn enumerate_faults(k: &str, j: usize, run: &mut dyn FnMut(Option<usize>, usize)
     free.result.map_err(|e| Fail { sig: format!("{}:fault_free_error", k), detail: format!("{:?}", e) })?;
     let n = free.calls.len();
     let mut runs = 0u64;
-    for f in 0..n {
+    // every call index up to 96 calls; beyond that (large drawables) the first and last four, every
+    // (n / 40)-th and 16 positions derived from n and j
+    let positions: Vec<usize> = if n <= 96 {
+        (0..n).collect()
+    } else {
+        let mut v: std::collections::BTreeSet<usize> = (0..4).chain(n - 4..n).chain((0..n).step_by((n / 40).max(1))).collect();
+        let mut x = (n as u64 * 0x9E37_79B9 + j as u64 * 31) | 1;
+        for _ in 0..16 {
+            x ^= x << 13;
+            x ^= x >> 7;
+            x ^= x << 17;
+            v.insert((x % n as u64) as usize);
+        }
+        v.into_iter().collect()
+    };
+    for f in positions {
         for (pull, cut) in [(usize::MAX, false), (j, true)] {
             runs += 1;
             let o = run(Some(f), pull);
@@ -207,5 +223,28 @@ fn adapter_operations(d: &mut Dec, cx: &mut Cx) -> Res {
     cx.count("fault_runs", runs);
     cx.count("target_calls_fault_free", n as u64);
     cx.nontrivial(n >= 2 || (covering && n >= 1));
+    Ok(())
+}
+
+
+/// Styled primitives of 100..=300 px drawn directly onto the native-fill target (hundreds of calls, one or
+/// two per row): faults at sampled call positions (`enumerate_faults`), the same oracle.
+fn large_drawables(d: &mut Dec, cx: &mut Cx) -> Res {
+    let kind = d.u(0, 7);
+    let mut st = crate::gen::style::<Rgb888>(d, 40);
+    if d.ratio(1, 3) {
+        // fill only: the path of a plain filled shape
+        st.stroke_width = 0;
+        st.fill_color = Some(crate::gen::Col::nth(1));
+    }
+    let item = AnyItem::C888(Item::Styled(crate::gen::large_shape(d, kind, 100, 300), st));
+    let j = d.u(0, 6) as usize;
+    cx.describe(|| format!("{} directly on the native-fill target", item.desc()));
+    cx.class(item.kind());
+    let k = item.kind();
+    let parent_box = BIG_BOX;
+    let (n, runs) = enumerate_faults(k, j, &mut |fail_at, pull| draw_through(&item, &[], parent_box, true, fail_at, pull))?;
+    cx.count("fault_runs", runs);
+    cx.nontrivial(n >= 3);
     Ok(())
 }
